@@ -799,6 +799,11 @@ func (c *codecV2) DecodeRange(encodedStart, encodedEnd []byte) (start []byte, en
 		(len(encodedEnd) > 0 && bytes.Compare(encodedEnd, c.prefix) <= 0) {
 		return nil, nil, errors.WithStack(errKeyOutOfBound)
 	}
+	// A start key above the prefix that does not carry the prefix (a short key between the last key of
+	// the keyspace and endKey) is beyond every key of the keyspace.
+	if !bytes.HasPrefix(encodedStart, c.prefix) && bytes.Compare(encodedStart, c.prefix) > 0 {
+		return nil, nil, errors.WithStack(errKeyOutOfBound)
+	}
 
 	start, end = []byte{}, []byte{}
 
